@@ -1,10 +1,14 @@
 //! Sequential differential harness for C17 (Access/Map projections) and C20 (serde).
 mod access_cmd;
+mod reent;
 mod serde_cmd;
 mod tok;
 
 fn main() {
     let args: Vec<String> = std::env::args().collect();
+    if args.len() >= 2 && args[1] == "reentrant" {
+        std::process::exit(reent::main());
+    }
     if args.len() < 3 {
         eprintln!("usage: seqx serde|access <cases-file>");
         std::process::exit(2);
